@@ -190,8 +190,8 @@ func loopsIn(f *ssa.Function) []loopAt {
 				if !ok {
 					continue
 				}
-				h, isFn := c.Call.Value.(*ssa.Function)
-				if !isFn || active[h] || len(h.Blocks) == 0 || !paths.Inlineable(h) {
+				h := paths.InlineTarget(c)
+				if h == nil || active[h] {
 					continue
 				}
 				ct := paths.DetachedTerm(g, c)
@@ -342,7 +342,7 @@ func (x *Ctx) structFields(rule, pkgRel, name string) []string {
 	}
 	var out []string
 	for i := 0; i < st.NumFields(); i++ {
-		out = append(out, st.Field(i).Name())
+		out = append(out, paths.FieldName(st.Field(i)))
 	}
 	return out
 }
@@ -378,7 +378,7 @@ func (x *Ctx) fieldUses(funcs map[*ssa.Function]bool, pkgRel, typeName string, f
 					continue
 				}
 				st = named.Underlying().(*types.Struct)
-				name := st.Field(idx).Name()
+				name := paths.FieldName(st.Field(idx))
 				if fields[name] {
 					out = append(out, fieldUse{Fn: f, Field: name, Pos: x.P.Pos(in.Pos())})
 				}
@@ -440,7 +440,7 @@ func fieldTypeString(x *Ctx, pkgRel, typ, field string) string {
 		return ""
 	}
 	for i := 0; i < st.NumFields(); i++ {
-		if st.Field(i).Name() == field {
+		if paths.FieldName(st.Field(i)) == field {
 			return paths.Short(st.Field(i).Type().String())
 		}
 	}
